@@ -1421,6 +1421,326 @@ theorem float_logic_spec_partial (t : Bytes) (d : Dec) (h : specFloat t = some d
 example : specFloat ("+12.5e-3".toList.map Char.toNat) = some ⟨125, -4⟩ := by decide
 
 
+
+/-! ### round 4: dropped hypotheses, characterisations in plain list vocabulary, iff statements -/
+
+/-- **C18.format_wide**: `format_int` without the int64 hypothesis — every magnitude below `10^20`
+(all of int64 and of uint64) is formatted to the canonical text -/
+theorem format_wide (ns : List Int) (h : ∀ n ∈ ns, n.natAbs < 10 ^ 20) : intsToStrings ns = ns.map decimal := by
+  rw [intsToStrings_rows]
+  exact List.map_congr_left (fun n hn => fmtOne_eq n (h n hn))
+
+example : ∀ n ∈ [(18446744073709551615 : Int), -9223372036854775808, 0], n.natAbs < 10 ^ 20 := by decide
+
+/-- **C18.int_to_str_spec**: the repaired scalar formatter gives the canonical text -/
+theorem int_to_str_spec (n : Int) (h : n.natAbs < 10 ^ 20) : intToStr n = decimal n := by
+  unfold intToStr
+  rw [format_wide [n] (by simpa using h)]
+  rfl
+
+/-- the scalar formatter shipped before the repair: a leading `'0'` at `10^15 − 1` (float width 16,
+observed on the code) and no sign (`−5 ↦ "5"`; `max(−5, 1) = 1`, `log10 1.0 = 0` exactly) -/
+theorem int_to_str_old_unsound (w : Int → Nat) (h1 : w 999999999999999 = 16) (h2 : w 1 = 1) :
+    intToStrOld w 999999999999999 = "0999999999999999".toList.map Char.toNat ∧
+    intToStrOld w (-5) = "5".toList.map Char.toNat ∧ decimal (-5) = "-5".toList.map Char.toNat := by
+  have e1 : max (999999999999999 : Int) 1 = 999999999999999 := by decide
+  have e2 : max (-5 : Int) 1 = 1 := by decide
+  refine ⟨?_, ?_, by decide⟩
+  · unfold intToStrOld; rw [e1, h1]; decide
+  · unfold intToStrOld; rw [e2, h2]; decide
+
+/-! canonical digits are pinned by three standard facts: digits `< 10`, no leading zero, value -/
+
+theorem digitsBE_head (m : Nat) : (digitsBE m).length = 1 ∨ (digitsBE m).head? ≠ some 0 := by
+  induction m using Nat.strongRecOn with
+  | _ m ih =>
+    rw [digitsBE]
+    by_cases h : m < 10
+    · left; simp [h]
+    · right
+      simp only [h, dite_false]
+      have hq : 0 < m / 10 := by omega
+      rcases ih (m / 10) (by omega) with h1 | h2
+      · -- a single digit: it is m / 10 itself, non-zero
+        have hb := digitsBE_bounds (m / 10)
+        have hv := ofDigits_digitsBE (m / 10)
+        cases hd : digitsBE (m / 10) with
+        | nil => rw [hd] at h1; simp at h1
+        | cons d r =>
+          rw [hd] at h1 hv
+          have : r = [] := by simpa using h1
+          subst this
+          simp only [ofDigits, List.foldl_cons, List.foldl_nil, Nat.zero_mul, Nat.zero_add] at hv
+          simp only [List.cons_append, List.head?_cons, ne_eq, Option.some.injEq]
+          omega
+      · cases hd : digitsBE (m / 10) with
+        | nil => have := (digitsBE_bounds (m / 10)).2.2; rw [hd] at this; simp at this
+        | cons d r => rw [hd] at h2; simpa using h2
+
+theorem snoc_cases {α} (ds : List α) : ds = [] ∨ ∃ init d, ds = init ++ [d] := by
+  by_cases h : ds = []
+  · left; exact h
+  · right; exact ⟨ds.dropLast, ds.getLast h, (List.dropLast_concat_getLast h).symm⟩
+
+/-- **C18.canonical_unique**: the canonical digit string is the ONLY list of digits `< 10` without a
+leading zero (or the single digit `0`) whose value is `m` — so `decimal`, `digitsBE` and the code's
+output are pinned by standard notions, not by definition -/
+theorem canonical_unique (m : Nat) (ds : List Nat) (hlt : ∀ d ∈ ds, d < 10) (hne : ds ≠ [])
+    (hlead : ds.length = 1 ∨ ds.head? ≠ some 0) (hval : ofDigits ds = m) : ds = digitsBE m := by
+  have key : ∀ n, ∀ (ds : List Nat) (m : Nat), ds.length = n → (∀ d ∈ ds, d < 10) → ds ≠ [] →
+      (ds.length = 1 ∨ ds.head? ≠ some 0) → ofDigits ds = m → ds = digitsBE m := by
+    intro n
+    induction n with
+    | zero => intro ds m hl _ hne; exact absurd (List.eq_nil_of_length_eq_zero hl) hne
+    | succ k ih =>
+      intro ds m hl hlt hne hlead hval
+      rcases snoc_cases ds with h0 | ⟨init, d, rfl⟩
+      · exact absurd h0 hne
+      · have hd : d < 10 := hlt d (by simp)
+        rw [ofDigits_snoc] at hval
+        by_cases hi : init = []
+        · subst hi
+          simp only [ofDigits, List.foldl_nil, Nat.zero_mul, Nat.zero_add] at hval
+          subst hval
+          rw [digitsBE]; simp [hd]
+        · have hinit_lt : ∀ x ∈ init, x < 10 := fun x hx => hlt x (by simp [hx])
+          have hlead' : init.head? ≠ some 0 := by
+            rcases hlead with h1 | h2
+            · simp at h1; exact absurd h1 hi
+            · cases init with
+              | nil => exact absurd rfl hi
+              | cons x xs => simpa using h2
+          have hpos : 0 < ofDigits init := by
+            cases init with
+            | nil => exact absurd rfl hi
+            | cons x xs =>
+              have hx : x ≠ 0 := by simpa using hlead'
+              have := foldl_horner xs x
+              unfold ofDigits
+              simp only [List.foldl_cons, Nat.zero_mul, Nat.zero_add]
+              rw [this]
+              have : 0 < x * 10 ^ xs.length := Nat.mul_pos (by omega) (Nat.pow_pos (by omega))
+              omega
+          have hm10 : ¬ m < 10 := by omega
+          rw [digitsBE]
+          simp only [hm10, dite_false]
+          have hdiv : m / 10 = ofDigits init := by omega
+          have hmod : m % 10 = d := by omega
+          have hlen : init.length = k := by simp at hl; omega
+          rw [hmod, ← ih init (m / 10) hlen hinit_lt hi (Or.inr hlead') hdiv.symm]
+  exact key ds.length ds m rfl hlt hne hlead hval
+
+example : [1, 0, 7] = digitsBE 107 :=
+  canonical_unique 107 [1, 0, 7] (by decide) (by decide) (Or.inr (by decide)) (by decide)
+
+/-! completeness: the integer parser accepts exactly the grammar -/
+
+theorem allDigits_of_omap (t : Bytes) (h : (omap digitVal t).isSome) : allDigits t = true := by
+  unfold allDigits
+  rw [List.all_eq_true]
+  intro b hb
+  have := (omap_isSome_iff digitVal t).mp h b hb
+  unfold digitVal at this
+  split at this
+  · rename_i hc; simp [hc.1, hc.2]
+  · simp at this
+
+theorem accept_iff_spec (r : Bytes) (hne : r ≠ []) :
+    (signOnly r = false ∧ (omap digitVal (stripSign r)).isSome) ↔ (specParse r).isSome := by
+  constructor
+  · intro ⟨hso, hok⟩
+    cases r with
+    | nil => exact absurd rfl hne
+    | cons b t =>
+      by_cases hb : b = 45 ∨ b = 43
+      · have hs : stripSign (b :: t) = 48 :: t := by
+          rcases hb with rfl | rfl <;> simp [stripSign, isNegRow, isPosRow]
+        rw [hs] at hok
+        have htd : allDigits t = true := by
+          have := allDigits_of_omap (48 :: t) hok
+          unfold allDigits at this ⊢
+          simp only [List.all_cons, Bool.and_eq_true] at this
+          exact this.2
+        have htne : t ≠ [] := by
+          intro hc; subst hc
+          rcases hb with rfl | rfl <;> simp [signOnly, isNegRow, isPosRow] at hso
+        have hn : specNat t = some (ofDigits (t.map (· - 48))) := by
+          unfold specNat; simp [htne, htd]
+        rcases hb with rfl | rfl
+        · unfold specParse; simp [hn]
+        · unfold specParse; simp [hn]
+      · have hb1 : b ≠ 45 := fun hc => hb (Or.inl hc)
+        have hb2 : b ≠ 43 := fun hc => hb (Or.inr hc)
+        have hs : stripSign (b :: t) = b :: t := by
+          simp [stripSign, isNegRow, isPosRow, hb1, hb2]
+        rw [hs] at hok
+        have hd := allDigits_of_omap (b :: t) hok
+        rw [specParse_unsigned b t hb1 hb2]
+        have hn : specNat (b :: t) = some (ofDigits ((b :: t).map (· - 48))) := by
+          unfold specNat; simp [hd]
+        rw [hn]; rfl
+  · intro h
+    obtain ⟨v, hv⟩ := Option.isSome_iff_exists.mp h
+    have := row_parse r v hv
+    exact ⟨this.2.2.2, this.2.1⟩
+
+/-- **C18.parse_int_some_iff**: for every batch of non-empty rows, `str_to_int` succeeds EXACTLY
+when every row is a decimal integer text (optional sign followed by at least one digit) -/
+theorem parse_int_some_iff (rows : List Bytes) (hne : ∀ r ∈ rows, r ≠ []) :
+    (strToInt rows).isSome ↔ ∀ r ∈ rows, (specParse r).isSome := by
+  constructor
+  · intro h r hr
+    -- if some row is not accepted the code raises
+    apply Classical.byContradiction
+    intro hbad
+    have hacc : ¬ (signOnly r = false ∧ (omap digitVal (stripSign r)).isSome) :=
+      fun hc => hbad ((accept_iff_spec r (hne r hr)).mp hc)
+    unfold strToInt at h
+    by_cases hany : rows.any (fun r => (isNegRow r || isPosRow r) && r.length == 1) = true
+    · simp [hany] at h
+    · have hany' : rows.any (fun r => (isNegRow r || isPosRow r) && r.length == 1) = false := by simpa using hany
+      simp only [hany', Bool.false_eq_true, if_false] at h
+      have hso : signOnly r = false := by
+        apply Bool.eq_false_iff.mpr
+        intro hc
+        exact hany (List.any_eq_true.mpr ⟨r, hr, hc⟩)
+      have hnok : (omap digitVal (stripSign r)).isSome = false := by
+        cases hq : (omap digitVal (stripSign r)).isSome with
+        | false => rfl
+        | true => exact absurd ⟨hso, hq⟩ hacc
+      have : (omap (fun r => omap digitVal (stripSign r)) rows).isSome = false := by
+        cases hq : (omap (fun r => omap digitVal (stripSign r)) rows).isSome with
+        | false => rfl
+        | true =>
+          have := (omap_isSome_iff _ rows).mp hq r hr
+          rw [hnok] at this; exact Bool.noConfusion this
+      cases hq : omap (fun r => omap digitVal (stripSign r)) rows with
+      | none => rw [hq] at h; simp at h
+      | some x => rw [hq] at this; simp at this
+  · intro h
+    have h1 : ∀ r ∈ rows, signOnly r = false ∧ (omap digitVal (stripSign r)).isSome :=
+      fun r hr => (accept_iff_spec r (hne r hr)).mpr (h r hr)
+    rw [strToInt_rows rows hne (fun r hr => (h1 r hr).1) (fun r hr => (h1 r hr).2)]
+    rfl
+
+example : (strToInt ["12".toList.map Char.toNat, "-".toList.map Char.toNat]).isSome = false := by decide
+
+/-! `split` pinned by `intercalate`: the converse of `split_join`, for every input -/
+
+theorem splitAux_join (sep : Nat) (cur s : Bytes) :
+    List.intercalate [sep] (splitAux sep cur s) = cur.reverse ++ s := by
+  induction s generalizing cur with
+  | nil => simp [splitAux, List.intercalate]
+  | cons b bs ih =>
+    by_cases hb : b = sep
+    · subst hb
+      simp only [splitAux, if_true]
+      have := ih []
+      cases hsp : splitAux b [] bs with
+      | nil =>
+        -- splitAux never returns []
+        exfalso
+        have : ∀ c t, splitAux b c t ≠ [] := by
+          intro c t; induction t generalizing c with
+          | nil => simp [splitAux]
+          | cons x xs ih2 => simp only [splitAux]; split <;> simp [ih2]
+        exact this [] bs hsp
+      | cons p ps =>
+        rw [hsp] at this
+        have e : List.intercalate [b] (cur.reverse :: p :: ps) = cur.reverse ++ b :: List.intercalate [b] (p :: ps) := by
+          simp [List.intercalate]
+        rw [e, this]; simp
+    · simp only [splitAux, hb, if_false]
+      rw [ih (b :: cur)]; simp
+
+/-- **C18.join_split**: joining the pieces of `split` with the separator gives back the input, for
+EVERY byte string (and `split_join` is the other direction) — `split` is pinned by `intercalate` -/
+theorem join_split (s : Bytes) (sep : Nat) : List.intercalate [sep] (split s sep) = s := by
+  unfold split
+  simpa using splitAux_join sep [] s
+
+theorem splitAux_no_sep_in_pieces (sep : Nat) (cur s : Bytes) (hc : sep ∉ cur) :
+    ∀ p ∈ splitAux sep cur s, sep ∉ p := by
+  induction s generalizing cur with
+  | nil => intro p hp; simp [splitAux] at hp; subst hp; simpa using hc
+  | cons b bs ih =>
+    intro p hp
+    by_cases hb : b = sep
+    · subst hb
+      simp only [splitAux, if_true, List.mem_cons] at hp
+      rcases hp with rfl | hp
+      · simpa using hc
+      · exact ih [] (by simp) p hp
+    · simp only [splitAux, hb, if_false] at hp
+      exact ih (b :: cur) (by
+        intro hm; simp only [List.mem_cons] at hm
+        rcases hm with hm | hm
+        · exact hb hm.symm
+        · exact hc hm) p hp
+
+/-- no piece of `split` contains the separator -/
+theorem split_pieces (s : Bytes) (sep : Nat) : ∀ p ∈ split s sep, sep ∉ p :=
+  splitAux_no_sep_in_pieces sep [] s (by simp)
+
+/-- the multi-separator `split` (list of separators): the pieces concatenate to the input without
+its separator bytes, and there is one more piece than separator bytes -/
+theorem splitBy_spec (p : Nat → Bool) (s : Bytes) :
+    (splitBy p s).flatten = s.filter (fun b => !p b) ∧ (splitBy p s).length = (s.filter p).length + 1 := by
+  unfold splitBy
+  have key : ∀ (cur : Bytes), (splitByAux p cur s).flatten = cur.reverse ++ s.filter (fun b => !p b) ∧
+      (splitByAux p cur s).length = (s.filter p).length + 1 := by
+    induction s with
+    | nil => intro cur; simp [splitByAux]
+    | cons b bs ih =>
+      intro cur
+      by_cases hb : p b = true
+      · obtain ⟨i1, i2⟩ := ih []
+        simp [splitByAux, hb, i1, i2]
+      · have hb' : p b = false := by simpa using hb
+        obtain ⟨i1, i2⟩ := ih (b :: cur)
+        simp [splitByAux, hb', i1, i2]
+  simpa using key []
+
+/-- **C18.digit_lists**: the `List[bool]` writer (`sep = ""`) gives one digit character per element
+exactly when every element is a single digit -/
+theorem digit_lists (rows : List (List Nat)) :
+    ((digitListsToStrings rows).isSome ↔ ∀ r ∈ rows, ∀ d ∈ r, d < 10) ∧
+    ((∀ r ∈ rows, ∀ d ∈ r, d < 10) → digitListsToStrings rows = some (rows.map (·.map (48 + ·)))) := by
+  have h2 : (∀ r ∈ rows, ∀ d ∈ r, d < 10) → digitListsToStrings rows = some (rows.map (·.map (48 + ·))) := by
+    intro h
+    unfold digitListsToStrings
+    apply omap_some_map
+    intro r hr
+    apply omap_some_map
+    intro d hd
+    simp [h r hr d hd]
+  refine ⟨⟨?_, fun h => by rw [h2 h]; rfl⟩, h2⟩
+  intro h r hr d hd
+  unfold digitListsToStrings at h
+  have := (omap_isSome_iff _ rows).mp h r hr
+  have := (omap_isSome_iff _ r).mp this d hd
+  split at this
+  · assumption
+  · simp at this
+
+/-- int64 wrap-around is the unique representative of the residue class in the int64 range -/
+theorem wrap64_spec (x : Int) : int64 (wrap64 x) ∧ (wrap64 x - x) % 18446744073709551616 = 0 := by
+  unfold int64 wrap64; omega
+
+/-- `cumsumFrom` is the running sum -/
+theorem cumsum_get (l : List Int) (acc : Int) (i : Nat) (h : i < l.length) :
+    (cumsumFrom acc l)[i]? = some (acc + (l.take (i + 1)).sum) := by
+  induction l generalizing acc i with
+  | nil => simp at h
+  | cons x xs ih =>
+    cases i with
+    | zero => simp [cumsumFrom]
+    | succ j =>
+      simp only [cumsumFrom, List.getElem?_cons_succ]
+      rw [ih (acc + x) j (by simp at h; omega)]
+      simp [Int.add_assoc]
+
+
 /-! ### the rule shipped before the repair is refuted (concrete witnesses, replayed on the code) -/
 
 /-- `ints_to_strings([-2^63])` gave `'-2'`: `np.abs` wraps, `max(·,1) = 1`, `log10(1.0) = 0` exactly -/
